@@ -159,9 +159,17 @@ def prepOutToJson (o : PrepOut) : Json :=
 def prepOutOfJson (j : Json) : R PrepOut := do
   return ⟨← listOf evOfJson (← fld j "trace"), ← errOfJson (← fld j "err"), ← targetOfJson (← fld j "target")⟩
 
-def prepInOfJson (j : Json) : R PrepIn := do
-  return ⟨← targetOfJson (← fld j "target"), ← strF j "input", ← strF j "cwd", ← strF j "name",
-          ← strF j "logfile"⟩
+def strFD (j : Json) (k : String) (d : String) : String := (strF j k).toOption.getD d
+
+def callInOfJson (j : Json) : R CallIn := do
+  let name ← strF j "name"
+  return ⟨← targetOfJson (← fld j "target"), ← strF j "input", ← strF j "cwd", name,
+          ⟨strFD j "basename" "", name, ← strF j "logfile"⟩⟩
+
+/-- the invariants the theorems assume, on this input -/
+def inScope (c : CallIn) : Bool :=
+  (effective c).1.WF &&
+    (c.opts.outputBasename == "" || plainName c.opts.outputBasename.toList)
 
 /-- spec verdict on the implementation's own output, `false` when the harness could not observe one -/
 def onImpl {α} (j : Json) (parse : Json → R α) (spec : α → Bool) : Bool :=
@@ -195,21 +203,26 @@ def handle (j : Json) : R Json := do
         ("scope", toJson true)]
     | f => throw s!"unknown fn {f}"
   | "prepare" =>
-    let p ← prepInOfJson j
+    let c ← callInOfJson j
+    let p := (effective c).1
     let o := prepareOutputDir p
-    return jObj [("model", prepOutToJson o),
+    return jObj [("model", prepOutToJson o), ("name", Json.str p.name),
       ("spec", jObj [("accepts", toJson (specAccepts p)),
                      ("model_ok", toJson (specPrepare p o)),
                      ("impl_ok", toJson (onImpl j prepOutOfJson (specPrepare p)))]),
-      ("scope", toJson p.WF)]
+      ("scope", toJson (inScope c))]
   | "pipeline" =>
-    let p : PipeIn := ⟨← prepInOfJson j, ← resultsOfJson (← fld j "results"), ← strF j "json"⟩
-    let o := runPipeline p
-    return jObj [("model", prepOutToJson o),
+    let c ← callInOfJson j
+    let written ← resultsOfJson (← fld j "results")
+    let results := if boolFD j "reload" false then reload written else written
+    let r : RunIn := ⟨c, results, strFD j "results_input" "seq.gbk"⟩
+    let p := r.toPipe
+    let o := runTail r
+    return jObj [("model", prepOutToJson o), ("name", Json.str p.prep.name), ("json", Json.str p.jsonName),
       ("spec", jObj [("accepts", toJson (specAccepts p.prep)), ("fault", toJson p.results.hasFault),
                      ("model_ok", toJson (specPipeline p o)),
                      ("impl_ok", toJson (onImpl j prepOutOfJson (specPipeline p)))]),
-      ("scope", toJson p.prep.WF)]
+      ("scope", toJson (inScope c))]
   | "path" =>
     -- the `posixpath` functions the model relies on, compared with the real ones
     let a := (← strF j "a").toList
